@@ -78,3 +78,13 @@ Theorem C05_cargo_toml_structural :
   walk_cargo_toml content root = Some pkgs -> forall p, In p pkgs -> structural_ok content p.
 Proof. exact cargo_toml_structural. Qed.
 Print Assumptions C05_cargo_toml_structural.
+
+(* pnpm-workspace.yaml, coverage part: under the hypotheses of C04_pnpm_workspace every reported range is exactly the
+   version text of the catalog entry - without the quotes when the scalar is quoted *)
+From VL Require Import Spec.YamlDoc Proofs.YamlWalkProofs.
+Theorem C05_pnpm_covers_value :
+  forall content root v pkgs,
+  denote_yaml content root = Some v -> pnpm_shape_ok v = true -> pnpm_known v = false -> walk_pnpm content root = Some pkgs ->
+  forall p, In p pkgs -> slice content (p_start p) (p_end p) = Some (p_version p) /\ p_start p <= p_end p.
+Proof. exact pnpm_locations. Qed.
+Print Assumptions C05_pnpm_covers_value.
